@@ -181,6 +181,12 @@ func (smpl *Simple[Type]) main() {
 	case <-smpl.opts.Ctx.Done():
 	case <-smpl.graceful.IsBreaked():
 		smpl.priority.GracefulStop()
+
+		// discipline may have terminated because of an error rather than because of
+		// the graceful stop, this error must not be lost
+		if err := <-smpl.priority.Err(); err != nil {
+			smpl.err <- err
+		}
 	case err := <-smpl.priority.Err():
 		smpl.err <- err
 	}
